@@ -239,6 +239,19 @@ def close(rc, rj, atol, rtol=RTOL):
     return np.where(ec | ej, ec & ej, ok)
 
 
+CRYSTAL_METHODS = {"Crystal_GetCrystal", "Crystal_dSpacing", "Crystal_UnitCellVolume", "Bragg_angle", "Q_scattering_amplitude",
+                   "Crystal_F_H_StructureFactor", "Crystal_F_H_StructureFactor_Partial"}
+
+
+def crystal_table_precision(a, b, la, lb, fscale=0.0):
+    """True when two non-error records differ by no more than single-precision table rounding can explain (rel. 5e-5 of the larger component)"""
+    if (a["flags"] & F_ERR) or (b["flags"] & F_ERR):
+        return False
+    # structure factors: the natural scale is the largest |F_H| of the crystal (terms cancel for weak / forbidden reflections)
+    scale = max(abs(float(a["v0"])), abs(float(a["v1"])), abs(float(b["v0"])), abs(float(b["v1"])), fscale, 1e-300)
+    return abs(float(a["v0"]) - float(b["v0"])) <= 5e-5 * scale and abs(float(a["v1"]) - float(b["v1"])) <= 5e-5 * scale
+
+
 def symptom_of(rc, rj, p=None):
     ec = bool(rc["flags"] & F_ERR); ej = bool(rj["flags"] & F_ERR)
     if ec and not ej:
@@ -472,6 +485,11 @@ def compare_plan(ctx, lock, S, p, stats):
         for j, sym, a, b, la, lb in reported:
             args = c03.argtuple(p, j)
             key = "%s|%s|%s|%s" % (cfg, mname, c03.arg_class(p, j), sym)
+            # C's built-in crystals are generated as single-precision literals with 6 decimals (src/pr_data.c, "%ff") while Java's data file
+            # carries the doubles: differences up to a few 1e-5 in everything derived from the built-in cells.  Kept apart (one key per method)
+            # so that it can be listed as ONE known finding without hiding any other disagreement of the crystal functions.
+            if mname in CRYSTAL_METHODS and sym in ("value-differs", "object-differs") and crystal_table_precision(a, b, la, lb, float(atol[j]) / 1e-7 if "F_H" in mname else 0.0):
+                key = "%s|%s|single-precision-crystal-table" % (cfg, mname)
             if sym == "object-differs":
                 if lb is None and la:
                     why = la[0]
